@@ -22,6 +22,7 @@ type Timer struct {
 	active  bool
 	Fired   int
 	key     uint64 // key of the callback task, derived from the creating task
+	hb      int32
 }
 
 //go:norace
@@ -48,6 +49,7 @@ func (k *Kernel) newTimer(d time.Duration) *Timer {
 func (k *Kernel) AfterFunc(d time.Duration, fn func()) *Timer {
 	t := k.newTimer(d)
 	t.fn = fn
+	HBRelease(&t.hb)
 	k.logf("timer %d afterfunc due +%v", t.seq, t.due.Sub(k.start))
 	return t
 }
